@@ -249,7 +249,7 @@ func C15(ctx *core.Ctx) {
 			return false
 		}
 		isTokenRecv := func(in ssa.Instruction) bool {
-			for _, rs := range RecvSites(closeFn) {
+			for _, rs := range RecvSitesLifted(closeFn) {
 				if rs.Instr == in && fieldNameOfAddr(rs.Chan) == "closeSignal" {
 					return true
 				}
@@ -292,7 +292,7 @@ func C15(ctx *core.Ctx) {
 		c, ok := ssax.AsCall(in)
 		return ok && c.FullName() == "builtin.close" && fieldNameOfAddr(c.Common.Args[0]) == "closeChan"
 	}
-	mn, mx = ssax.CountOnPathsTo(closeFn, nil, isCloseChan, successRet)
+	mn, mx = ssax.CountOnPathsToW(closeFn, nil, liftedWeight(closeFn, isCloseChan, 1), successRet)
 	ctx.Check(mn == 1 && mx == 1, "C15.R4", cn+" › closeChan closed exactly once on the success path", fnPos(r, closeFn),
 		"close(closeChan) exactly once", sprintf("closeChan is closed %d..%d times on a successful close (receivers of Closed() hang, or double close panics)", mn, mx))
 	isMonitor := func(in ssa.Instruction) bool {
@@ -787,9 +787,100 @@ func readerExits(ctx *core.Ctx, r *RT, loop *ssa.Function, rule string) {
 			if c.Static == closeFn {
 				args := c.Args()
 				_, isNil := ssax.Strip(args[1]).(*ssa.Const)
+				if isNil && underEOFTest(c.Instr.Block()) {
+					// the peer hung up: a clean close, exactly what Close() does
+					ctx.Discharge(rule, gn+" › close carries the error as cause #"+sprintf("%d", callOrdinal(g, c)), r.IPos(c.Instr), "close(nil) only where the read error was classified as END_OF_FILE")
+					continue
+				}
 				ctx.Check(!isNil, rule, gn+" › close carries the error as cause #"+sprintf("%d", callOrdinal(g, c)), r.IPos(c.Instr),
 					"close(err) with the error that ended the loop", "an unclean exit is reported with a nil cause (looks like a clean close: the monitor does not reopen)")
 			}
 		}
 	}
+}
+
+// underEOFTest: the block is reached only over the true edge of a comparison
+// `x.TypeId() == <constant>` (the classification of a read error as
+// end-of-file), possibly through an extracted predicate of the package that
+// returns that comparison.
+func underEOFTest(b *ssa.BasicBlock) bool {
+	isTypeIDTest := func(v ssa.Value) bool {
+		bo, ok := v.(*ssa.BinOp)
+		if !ok || bo.Op != token.EQL {
+			return false
+		}
+		for _, side := range []ssa.Value{bo.X, bo.Y} {
+			if c, isC := CallValue(side); isC && c.ShortName() == "TypeId" {
+				return true
+			}
+		}
+		return false
+	}
+	var isTest func(v ssa.Value, depth int) bool
+	isTest = func(v ssa.Value, depth int) bool {
+		if isTypeIDTest(v) {
+			return true
+		}
+		if ph, isPhi := v.(*ssa.Phi); isPhi {
+			// ok && x.TypeId() == K: false on the short-circuit edge, the comparison on the other
+			some := false
+			for _, e := range ph.Edges {
+				if k, isK := e.(*ssa.Const); isK && k.Value != nil && k.Value.String() == "false" {
+					continue
+				}
+				if !isTest(e, depth) {
+					return false
+				}
+				some = true
+			}
+			return some
+		}
+		if depth <= 0 {
+			return false
+		}
+		if c, ok := v.(*ssa.Call); ok {
+			if g := c.Call.StaticCallee(); g != nil && len(g.Blocks) > 0 && g.Pkg == b.Parent().Pkg {
+				// a predicate: every `true` it returns comes from such a comparison
+				all, n := true, 0
+				for _, vs := range ReturnedValues(g) {
+					if len(vs) != 1 {
+						return false
+					}
+					var walk func(x ssa.Value) bool
+					walk = func(x ssa.Value) bool {
+						x = ssax.Strip(x)
+						if k, isK := x.(*ssa.Const); isK && k.Value != nil {
+							return k.Value.String() == "false"
+						}
+						if ph, isPhi := x.(*ssa.Phi); isPhi {
+							for _, e := range ph.Edges {
+								if !walk(e) {
+									return false
+								}
+							}
+							return true
+						}
+						return isTest(x, depth-1)
+					}
+					n++
+					if !walk(vs[0]) {
+						all = false
+					}
+				}
+				return all && n > 0
+			}
+		}
+		return false
+	}
+	for cur := b; cur != nil; cur = cur.Idom() {
+		if len(cur.Preds) != 1 {
+			continue
+		}
+		p := cur.Preds[0]
+		iff, ok := p.Instrs[len(p.Instrs)-1].(*ssa.If)
+		if ok && p.Succs[0] == cur && p.Succs[1] != cur && isTest(iff.Cond, 1) {
+			return true
+		}
+	}
+	return false
 }
